@@ -20,6 +20,7 @@ func extra(repo, out string, root, helpers *pkgFiles) {
 		genReflect(out, root, irefl)
 		genEntryFacts(out, root)
 		genCacheFacts(out, root)
+		genMergeFacts(out, root)
 	}
 }
 
@@ -365,4 +366,126 @@ func genCacheFacts(out string, root *pkgFiles) {
 	default:
 		fail("loadCachedWithFrontMatter", fmt.Errorf("hit condition not recognised: %q", cond))
 	}
+}
+
+// rangeSources lists, in order, the X of every statement-level `for k, v := range X { dst[k] = v }` in a function body.
+func rangeSources(body *ast.BlockStmt) []string {
+	var out []string
+	var walk func(list []ast.Stmt)
+	walk = func(list []ast.Stmt) {
+		for _, s := range list {
+			switch x := s.(type) {
+			case *ast.RangeStmt:
+				if len(x.Body.List) == 1 {
+					if as, ok := x.Body.List[0].(*ast.AssignStmt); ok && len(as.Lhs) == 1 {
+						if _, isIdx := as.Lhs[0].(*ast.IndexExpr); isIdx {
+							out = append(out, exprString(x.X))
+						}
+					}
+				}
+			case *ast.IfStmt:
+				walk(x.Body.List)
+			case *ast.BlockStmt:
+				walk(x.List)
+			}
+		}
+	}
+	walk(body.List)
+	return out
+}
+
+// genMergeFacts: the order of the merge loops in loadConfig, Fill and Vue.Render (mergeFrontMatter).
+func genMergeFacts(out string, root *pkgFiles) {
+	var sb strings.Builder
+	sb.WriteString("import Vuego.Model.Merge\nnamespace Vuego.Generated\nopen Vuego.Merge\n\n")
+	defer func() {
+		sb.WriteString("end Vuego.Generated\n")
+		writeFile(out, "MergeFacts.lean", sb.String())
+	}()
+	okAll := true
+	// Fill
+	var fillOrder []string
+	if fd := root.method("template", "Fill"); fd != nil {
+		for _, src := range rangeSources(fd.Body) {
+			switch src {
+			case "t.vue.initialData":
+				fillOrder = append(fillOrder, ".initialData")
+			case "passedData":
+				fillOrder = append(fillOrder, ".passed")
+			case "t.frontMatter":
+				fillOrder = append(fillOrder, ".frontMatter")
+			default:
+				fail("template.Fill", fmt.Errorf("merge loop over unknown source %q", src))
+				okAll = false
+			}
+		}
+		srcText := nodeText(root, fd)
+		if !strings.Contains(srcText, "passedData := toMapData(vars)") {
+			fail("template.Fill", fmt.Errorf("passedData is not toMapData(vars)"))
+			okAll = false
+		}
+	} else {
+		fail("template.Fill", fmt.Errorf("method not found"))
+		okAll = false
+	}
+	// loadConfig: theme.yml first, then the data/ loop
+	var cfgOrder []string
+	if fd := root.fn("loadConfig"); fd != nil {
+		srcText := nodeText(root, fd)
+		ti := strings.Index(srcText, `loadYAML("theme.yml")`)
+		di := strings.Index(srcText, `loadYAML("data/" + name)`)
+		if ti < 0 || di < 0 {
+			fail("loadConfig", fmt.Errorf("loadYAML calls not found"))
+			okAll = false
+		} else if ti < di {
+			cfgOrder = []string{".theme", ".dataYml"}
+		} else {
+			cfgOrder = []string{".dataYml", ".theme"}
+		}
+		if !strings.Contains(srcText, "vue.initialData[k] = v") {
+			fail("loadConfig", fmt.Errorf("merge into initialData not found"))
+			okAll = false
+		}
+	} else {
+		fail("loadConfig", fmt.Errorf("function not found"))
+		okAll = false
+	}
+	// Vue.Render: mergeFrontMatter(toMapData(data), frontMatter) and the loops inside mergeFrontMatter
+	var renderOrder []string
+	if fd := root.fn("mergeFrontMatter"); fd != nil {
+		for _, src := range rangeSources(fd.Body) {
+			switch src {
+			case "data":
+				renderOrder = append(renderOrder, ".callerData")
+			case "frontMatter":
+				renderOrder = append(renderOrder, ".fileFrontMatter")
+			default:
+				fail("mergeFrontMatter", fmt.Errorf("merge loop over unknown source %q", src))
+				okAll = false
+			}
+		}
+		if rfd := root.method("Vue", "Render"); rfd == nil || !strings.Contains(nodeText(root, rfd), "mergeFrontMatter(toMapData(data), frontMatter)") {
+			fail("Vue.Render", fmt.Errorf("call mergeFrontMatter(toMapData(data), frontMatter) not found"))
+			okAll = false
+		}
+	} else if rfd := root.method("Vue", "Render"); rfd != nil {
+		// older shape: the front-matter loop writes into dataMap directly
+		for _, src := range rangeSources(rfd.Body) {
+			if src == "frontMatter" {
+				renderOrder = []string{".callerData", ".fileFrontMatter"}
+			}
+		}
+		if renderOrder == nil {
+			fail("Vue.Render", fmt.Errorf("front-matter merge not found"))
+			okAll = false
+		}
+	}
+	if !okAll {
+		return
+	}
+	rep.Facts["merge.fill"] = strings.Join(fillOrder, ",")
+	rep.Facts["merge.loadConfig"] = strings.Join(cfgOrder, ",")
+	rep.Facts["merge.render"] = strings.Join(renderOrder, ",")
+	sb.WriteString("/-- order of the merge loops (earlier = lower precedence) in loadConfig, template.Fill and Vue.Render/mergeFrontMatter -/\n")
+	sb.WriteString("def mergeCfg : MergeCfg := { loadConfig := [" + strings.Join(cfgOrder, ", ") + "], fill := [" + strings.Join(fillOrder, ", ") + "], render := [" + strings.Join(renderOrder, ", ") + "] }\n\n")
 }
